@@ -121,7 +121,7 @@ def run_shard(shard, ctx, tier):
                 guarded_check(mod, {'lines': lst, 'bs': shard['bs'], 'ctx': shard['ctx'], 'mode': mode}, ctx)
 
 
-def compare(pos, i, got, ref, mode, w, bs, ctx_, K, desc, sub, ctx):
+def compare(pos, i, got, ref, mode, w, bs, ctx_, K, desc, sub, ctx, padding_is_blank=True):
     t, lg, co = got
     rt, rlg, rco = ref
     if t != rt:
@@ -140,7 +140,7 @@ def compare(pos, i, got, ref, mode, w, bs, ctx_, K, desc, sub, ctx):
         n = min(lg.shape[0], rlg.shape[0])
         same = lg.shape[1] == rlg.shape[1] and np.abs(lg[:n] - rlg[:n]).max() <= 1e-5
         # frames beyond the line's own tensor are padding: they must decode to blank only
-        if same and lg.shape[0] > n:
+        if same and lg.shape[0] > n and padding_is_blank:
             extra = lg[n:]
             dense_extra = np.where(extra == 0, -80, extra)
             same = bool(np.all(np.argmax(dense_extra, axis=1) == C - 1))
@@ -218,6 +218,25 @@ def check_case(case, ctx):
         if len(set(widths)) < len(widths):
             ctx.tag('equal-width-lines')
     ctx.outcome(tuple(out1[0]))
+    # engines with a writer/embedding id: changing engine.embed_id between two calls (as user_scripts/select_embed_id.py does) must
+    # take effect for every line of the next call, whatever batches were run before
+    if mode == 'sparse' and cx == 0 and len(lst) >= 2 and bs in (1, 16):
+        from mc import stubs
+        ee = stubs.make_embed_engine(C, CHARS, 0, line_px_height=H, batch_size=bs)
+        run(ee, imgs[:2], mode)
+        ee.embed_id = 2
+        out3 = run(ee, imgs, mode)
+        ctx.executed(2)
+        for pos, i in enumerate(lst):
+            key = ('embed', i, bs if CROPS[i][0] + 64 > 480 else 0)
+            if key not in _REF:
+                t, lg, co = run(stubs.make_embed_engine(C, CHARS, 2, line_px_height=H, batch_size=bs), [crop(i)], mode)
+                _REF[key] = (t[0], todense(lg[0]), co[0])
+            if not compare(pos, i, (out3[0][pos], out3[1][pos], out3[2][pos]), _REF[key], mode, CROPS[i][0], bs, cx, f'{K}/after-embed-id-change',
+                           desc + ' (embedding engine: 2 lines with embed_id 0, then the whole list with embed_id 2)', case, ctx,
+                           padding_is_blank=False):
+                return
+        ctx.tag('embedding-engine-id-changed-between-calls')
     # page level: PageOCR zips the results back onto the lines (default engine batch size)
     if mode == 'sparse' and bs == 1 and 1 <= len(lst) <= 3:
         from mc import stubs
@@ -253,6 +272,6 @@ def describe(tier):
         'assumptions': ['frames beyond a line\'s own tensor are padding and only need to decode to blank',
                         'over-long lines are compared with the alone-run under the same pixel budget (truncation depends on it)'],
         'min_nontrivial': 100,
-        'required_tags': ['mixed-width-batches', 'truncated-line', 'several-batches', 'equal-width-lines', 'page-ocr-pages',
+        'required_tags': ['embedding-engine-id-changed-between-calls', 'mixed-width-batches', 'truncated-line', 'several-batches', 'equal-width-lines', 'page-ocr-pages',
                           'sparse-keeps-small-and-prunes-smaller'],
     }
